@@ -252,6 +252,7 @@ func (c *countingMessenger) SendMessage(string, []byte, int) error {
 type slowMessenger struct {
 	sync.Mutex
 	started []time.Time
+	ended   []time.Time
 	d       time.Duration
 }
 
@@ -260,12 +261,15 @@ func (c *slowMessenger) SendMessage(string, []byte, int) error {
 	c.started = append(c.started, time.Now())
 	c.Unlock()
 	time.Sleep(c.d)
+	c.Lock()
+	c.ended = append(c.ended, time.Now())
+	c.Unlock()
 	return nil
 }
 
 // realSlowResendAfterStop: copies whose sending STARTED after RemoveSender had returned (the one in flight at that
 // moment is not counted)
-func realSlowResendAfterStop() int {
+func realSlowResendAfterStop() (startedAfter, finishedAfter int) {
 	sm := &slowMessenger{d: 3 * time.Millisecond}
 	rm := messages.NewRedundantMessenger(sm, time.Millisecond)
 	mgr := messages.NewManager()
@@ -277,13 +281,17 @@ func realSlowResendAfterStop() int {
 	time.Sleep(40 * time.Millisecond)
 	sm.Lock()
 	defer sm.Unlock()
-	n := 0
 	for _, t := range sm.started {
 		if t.After(stopped) {
-			n++
+			startedAfter++
 		}
 	}
-	return n
+	for _, t := range sm.ended {
+		if t.After(stopped) {
+			finishedAfter++
+		}
+	}
+	return
 }
 
 func realResendAfterStop(waitBefore time.Duration) (before, after int) {
@@ -438,14 +446,21 @@ func init() {
 			}
 		}
 		// sends slower than the interval: after the stop no NEW copy may be started (the copy in flight finishes)
-		worst := 0
+		worst, worstFin := 0, 0
 		for i := 0; i < 40; i++ {
-			k := realSlowResendAfterStop()
+			k, fin := realSlowResendAfterStop()
 			res.Evaluations++
 			res.Histogram[fmt.Sprintf("slow sends: copies started after stop = %d", k)]++
+			res.Histogram[fmt.Sprintf("slow sends: copies completed after stop = %d", fin)]++
 			if k > worst {
 				worst = k
 			}
+			if fin > worstFin {
+				worstFin = fin
+			}
+		}
+		if worstFin > 1 {
+			res.addFinding("C22/real-messenger/several-copies-in-flight-at-stop/slow-sends", fmt.Sprintf("with sends slower than the retry interval %d copies completed after RemoveSender had returned: more than the one copy that may be in flight", worstFin), "interval 1 ms, each send 3 ms, stop after 8 ms, 40 trials")
 		}
 		if worst > 0 {
 			res.addFinding("C22/real-messenger/new-copies-started-after-stop/slow-sends", fmt.Sprintf("with sends slower than the retry interval up to %d NEW copies were started after RemoveSender had returned (a pending tick and the stop are both ready and select picks at random)", worst), "interval 1 ms, each send 3 ms, stop after 8 ms, 40 trials")
